@@ -19,6 +19,9 @@ type vsymStored struct {
 	indexed bool // the batch has its own sparse-index entry
 }
 
+// vsymReadWide selects the three-batches-per-segment layout (set by the harness before building)
+var vsymReadWide bool
+
 type vsymReadWorld struct {
 	l        *PartitionLog
 	s3       *vsymS3
@@ -39,9 +42,15 @@ func vsymBuildReadWorld(interval int32, cacheOn, hole, restart bool) *vsymReadWo
 	w.l = NewPartitionLog("ns", "t", 0, 0, w.s3, c, cfg, nil, nil, nil)
 	counts := [][]int32{{2, 1}, {1, 2}}
 	plens := [][]int{{0, 9}, {9, 0}}
+	if vsymReadWide {
+		// three batches per segment: an index with three entries, so that an offset can lie
+		// strictly between two entries in more than one way
+		counts = [][]int32{{2, 2, 2}, {1, 2, 2}}
+		plens = [][]int{{0, 9, 0}, {9, 0, 0}}
+	}
 	for seg := 0; seg < 2; seg++ {
 		since := int32(0)
-		for bi := 0; bi < 2; bi++ {
+		for bi := 0; bi < len(counts[seg]); bi++ {
 			raw := vsymBatch(counts[seg][bi], vsym_Bytes("payload", plens[seg][bi]))
 			b, err := NewRecordBatchFromBytes(raw)
 			vsym_Assert(err == nil, "build/batch")
